@@ -111,7 +111,7 @@ tows = fn_body(lib, r"fn\s+to_owned_with_scale\s*\(")
 vals = re.findall(r"if\s+scale_diff\s*<\s*(\d+)", tows or "")
 const("toOwnedFastUp", vals[0] if len(vals) >= 1 else None, "to_owned_with_scale: fast path bound (growing)")
 const("toOwnedFastDown", vals[1] if len(vals) >= 2 else None, "to_owned_with_scale: fast path bound (shrinking)")
-expb = fn_body(lib, r"pub\s+fn\s+exp\s*\(")
+expb = (fn_body(lib, r"pub\s+fn\s+exp\s*\(") or "") + "\n" + (fn_body(lib, r"fn\s+exp_untrimmed\s*\(") or "")
 m = re.search(r"impl_division\(term\.int_val\.clone\(\),\s*&factorial,\s*term\.scale,\s*([^;]*?)\)\s*;", expb or "")
 site_ids.append(("expTermPrecision", re.sub(r"\s+", " ", m.group(1)).strip() if m else "MISSING"))
 const("expTermLiteral", find_int(expb, r"term\.scale,\s*(\d+)\s*\+\s*precision\)"), "exp: literal in the term precision (0 = no literal)") if False else None
@@ -393,7 +393,7 @@ elif m2:
 else:
     missing.append("expTermPrecision")
     etp_expr = "0"
-L.append("/-- : significant digits requested from  for each series term ( = digits of x) -/")
+L.append("/-- exp: significant digits requested from impl_division for each series term (digits = digits of x) -/")
 L.append("def expTermPrecision (cfg : Config) (digits : Nat) : Nat := %s" % etp_expr)
 L.append("")
 L.append("/-- identifiers referenced at the implicit-default sites (C20) -/")
